@@ -518,10 +518,26 @@ def check(run, repo, world):
                     n.ast.args[0]) == qparam and n.id not in after:
             c = world.resolve_class(MOD, n.ast.args[1])
             if c is not None and c.qname == COL + "QueryColourValueDTR":
+                yids = {y.node.id for y in ys}
                 for (l, mm) in n.succ:
-                    if l == "F" and mm.kind == "stmt" and isinstance(
-                            mm.ast, ast.Raise):
-                        okq = True
+                    if l != "F":
+                        continue
+                    # every path from the refusal edge ends in a raise
+                    # before anything is sent (the message may be built in
+                    # statements of its own first)
+                    good, seen_, stack_ = True, set(), [mm]
+                    while stack_ and good:
+                        x = stack_.pop()
+                        if x.id in seen_:
+                            continue
+                        seen_.add(x.id)
+                        if x.kind == "stmt" and isinstance(x.ast, ast.Raise):
+                            continue
+                        if x.id in yids or x is cfg.exit:
+                            good = False
+                            break
+                        stack_ += [k_ for (l_, k_) in x.succ if l_ != "exc"]
+                    okq = okq or good
     run.ob("R-DT8-REJECT", F + "#" + qparam, okq,
            "a selector that is not a QueryColourValueDTR must be rejected "
            "(raise) before the first command", where(mod, fn))
